@@ -22,8 +22,11 @@ def make_species(I, idx, name_w, notes, elements, temps_w, phase_w=1):
     """elements: list of (symbol width, count digits or 0 for a zero-count entry)"""
     D = I.D
     tag = 's%d' % idx
-    name = Z + tag + '.name'
-    I.sym_strings[name] = (name_w, 'text')
+    if isinstance(name_w, str):
+        name = name_w                   # a concrete name
+    else:
+        name = Z + tag + '.name'
+        I.sym_strings[name] = (name_w, 'text')
     phase = Z + tag + '.phase'
     I.sym_strings[phase] = (phase_w, 'text')
     if notes is None or notes == '':
@@ -347,6 +350,18 @@ def check(run, repo):
         for nw, nt, tw in itertools.product(names, notes, temps):
             for ec in el_cfgs[:10]:
                 cases.append((nw, nt, ec, tw))
+    # concrete names that are not in alphabetical order (nor in reverse): the order of the collection is kept
+    named = [('ZRO2', 5, [(1, 1), (2, 2)], (5, 6, 6)), ('AR', None, [(1, 2)], (3, 5, 4)),
+             ('CH4(S)', 5, [(1, 1), (1, 1)], (5, 6, 6))]
+    for as_dict, fmt in ((True, 'dict'), (True, 'list'), (False, 'list')):
+        label = 'concrete names ZRO2, AR, CH4(S) input=%s format=%s' % ('dict' if as_dict else 'list', fmt)
+        res = roundtrip(run, repo, label, named, as_dict=as_dict, fmt=fmt)
+        n_cases += 1
+        if 'write_error' in res:
+            run.fail('TABLE.write', 'thermdat.write_thermdat', 'raises', '[%s] writing raises %s'
+                     % (label, show(res['write_error'])), repo.module(TD), repo.module(TD).functions['write_thermdat'])
+            continue
+        compare_species(run, repo, res, label, ' [concrete names]')
     hazards_seen = {}
     for case in cases:
         label = 'name=%d notes=%s elements=%s temps=%s' % (case[0], case[1], case[2], case[3])
